@@ -5,9 +5,9 @@ import json, os, sys
 
 VERIF = os.path.dirname(os.path.dirname(os.path.abspath(__file__)))
 
-IMPLEMENTED = ["C01", "C02", "C04", "C05", "C06", "C07", "C08", "C09", "C14", "C15"]
+IMPLEMENTED = ["C01", "C02", "C03", "C04", "C05", "C06", "C07", "C08", "C09", "C10", "C11", "C12", "C13", "C14", "C15", "C16", "C18", "C20"]
 
-HOOK_COMMITS = []
+HOOK_COMMITS = ["8829da3"]
 
 CHECKS = {
  "C01": dict(level="exploration", design="DESIGN.md §4 C01",
@@ -50,6 +50,38 @@ CHECKS = {
    technique="deterministic simulation with read fault injection and owned delivery schedules: unreadable byte at every position, error on every seek call, five benign fragmentation policies; six reader modes",
    text="Each generated file is read under five benign delivery policies (result incl. terminal condition must not change) and with an unreadable byte at EVERY position (three error-delivery variants) and an error on EVERY seek call, through the lexer (validation off/on), the scan iterator and the indexed iterator in 3 orders: records must be a prefix of the fault-free result and, whenever the source actually returned the error to the library, the read must end with a non-EOF error. Positions are exhaustive per file; files are sampled.",
    note="Trusted: simulated source (delivery sizes are a hash of offset, so zstd's reader goroutine cannot change them). A one-shot error returned together with enough bytes is not injected because io.ReadFull itself discards it."),
+ "C03": dict(level="exploration", design="DESIGN.md §4 C03",
+   technique="deterministic simulation over reference-encoder layouts: exhaustive seed-free sweep of all <=3x3 files on a 4-value time domain (1 channel) plus a 2-channel slice, and seeded search over larger tie-heavy files; oracle exact sort / exactly-once / in-chunk tie order / repeatability",
+   text="Files whose chunk/time arrangement is fully controlled (reference encoder) are read in log-time and reverse order: every selected message exactly once (unique sequence numbers), monotone log time, in-chunk ties in (reverse) file order, same sequence on a second Messages() and on a fresh reader. The 614125 one-channel files of the stated scope are enumerated completely on every run; the 2-channel space and the larger files (up to 40 chunks x 60 messages, >12-way ties, nested/backwards/empty chunks, per-chunk compression, topic and time filters) are sampled.",
+   note="Trusted: refmcap encoder (pinned by selftest), harness oracle. exhaustive=false because the 2-channel sweep is a slice."),
+ "C10": dict(level="exploration", design="DESIGN.md §4 C10",
+   technique="deterministic simulation with stored-byte fault injection observed at the process boundary: field-aware hostile mutations of spec-valid files, splices and random bytes, every decode entry point, in batch processes with RLIMIT_AS that announce each input; oracle no panic / process alive / CPU watchdog / allocation ceilings",
+   text="Hostile inputs (every length/offset/size/count/crc/opcode field of reference-encoded files set to boundary and huge values, truncation, duplication, splicing, opcode changes incl. nested chunks, random bytes) go through the lexer under 8 option sets, all Parse* functions, NewReader/Info/Messages in 4 modes and random access at indexed and hostile offsets, inside a child process with an 8 GiB address-space cap that names the input before running it: no panic, no process death, no hang (CPU watchdog per evaluation), allocation per entry within the documented ceilings. Seeded sampling, not coverage-guided.",
+   note="Trusted: process isolation and in-flight file, runtime.MemStats accounting. Decompression bombs are allowed for (bound grows with bytes returned). After two entries allocated a permitted >512 MiB buffer for one input, the remaining unlimited entries are skipped for that input (counted)."),
+ "C11": dict(level="exploration", design="DESIGN.md §4 C11",
+   technique="deterministic simulation over reference-encoder layouts: each content encoded plain and decorated (unknown-opcode records at top level / in chunks / at summary group boundaries, trailing bytes on every extensible record); all Go readers compared with the model",
+   text="Each generated content is laid out by the reference encoder twice - plain and with unknown records (0x10..0xFF, any length incl. 0) and appended bytes (incl. the conformance pad 01 ff ff), all pointers recomputed and both files validated by refmcap - and everything the Go readers report on the decorated file (lexer content, scan, indexed reads in 3 orders incl. topic-restricted, Info, random access) must equal the model. Samples the space.",
+   note="Trusted: refmcap encoder/decoder/validator. Unknown records are placed only where the spec allows a record."),
+ "C12": dict(level="exploration", design="DESIGN.md §4 C12",
+   technique="deterministic simulation over reference-encoder layouts: one content, several legal layouts (chunk partition, per-chunk compression, definition placement, summary group permutation and subsets, CRCs); all Go readers compared with the model",
+   text="Each generated content is laid out in 2-4 different legal ways (partition into chunks incl. none/each/random and message-less/empty chunks, none/zstd/lz4 per chunk, definitions as written / early / early-only / repeated per chunk, every permutation of summary groups with channels before statistics, optional groups present or not, CRCs present or zero) and every layout must read as the model through the lexer, scan, indexed iterators (3 orders, also topic-restricted), Info and random access. Samples the space.",
+   note="Trusted: refmcap encoder (every layout is validated by refmcap before use). Indexed reads are compared only for files that actually carry chunk indexes + repeated channels/schemas and keep every message in a chunk."),
+ "C13": dict(level="exploration", design="DESIGN.md §4 C13",
+   technique="deterministic simulation with an owned cooperative scheduler: caller tasks parked before every API call and released one at a time from a seeded schedule; plus repetition over map insertion orders and GOMAXPROCS settings",
+   text="(i) the same workload is written 8/32 times with every map rebuilt in another insertion order - outputs must be byte-identical; (ii) under GOMAXPROCS 1/2/4/16 - identical; (iii) 2..8 writer/lexer/iterator instances run as goroutines released one API call at a time following a schedule drawn from the seed - every instance's result must equal its solo run. Clause (i) is decided by repetition (map iteration order is not seedable); (iii) replays exactly.",
+   note="Trusted: scheduler (one runnable task at a time). Interleaving granularity is the API call: shared state between instances is exposed, races inside one call are not (a -race free-running clause is described in DESIGN.md but not part of the registered commands)."),
+ "C16": dict(level="exploration", design="DESIGN.md §4 C16",
+   technique="deterministic simulation with two real implementations exchanging files through the simulated disk: Go writer -> Python readers and Python writer -> Go readers, both compared with the reference model",
+   text="Seeded workloads (valid UTF-8, uncompressed) are written by the Go writer in every configuration and read by the repository's Python StreamReader (validate_crcs), NonSeekingReader and SeekingReader in a subprocess with PYTHONHASHSEED fixed; seeded op lists are written by the Python Writer across its options and read by the Go lexer, scan, indexed iterators and Info. Full content, time-ordered reads, attachments, metadata and statistics are compared with the model. Samples the space.",
+   note="Trusted: reference model, pyserve.py glue. zstandard/lz4 are not installed for Python: uncompressed only. Seeking readers compared only where the summary carries what they rely on."),
+ "C18": dict(level="exploration", design="DESIGN.md §4 C18",
+   technique="deterministic simulation: generated bags (independent ROS bag 2.0 encoder) and SQLite databases converted by the real converters between simulated source and sink; corrupted bags observed at the process boundary",
+   text="Bags from an encoder written from the format description (connection ids 0/65535, repeated connection records, shared/distinct type+md5, messages of 0 B..5 MiB, times to 2^32-1 s, unchunked / chunked none / lz4) and db3 files made with the real sqlite driver plus generated share/ trees are converted by ros.Bag2MCAP / ros.DB3ToMCAP under drawn writer options and delivery policies; the output is validated by refmcap and compared with the bag/db model. Corrupted bags (bad/short magic, truncation, hostile header/field/data lengths) must give an error: the batch process has an 8 GiB address-space cap and names each input, so an exit, crash or OOM identifies it. Samples the space.",
+   note="Trusted: bagfmt encoder, refmcap, sqlite driver. bz2 bags are not generated. Messages on non-message-typed db3 topics are not generated (outside the statement)."),
+ "C20": dict(level="exploration", design="DESIGN.md §4 C20",
+   technique="deterministic simulation with resource invariants monitored at every step: verif-tagged accessor read after every NextInto; generator sources/sinks with heap sampling at I/O events for streaming paths",
+   text="(A) reference-encoded files of 10..100(1000) chunks with overlap depth 1..8 are read in 3 orders with/without filters; after every NextInto the chunk-slot accessor must show slots <= 1 (file order) / <= measured overlap depth, and bounded buffer capacity. (B) generator sources synthesise many-chunk streams and attachments of 8..32 (64..256) MiB that are never held in memory; heap growth sampled at I/O events must stay below 32 MiB + 4 units and total allocation must not grow with attachment size / per-message allocation must not grow with stream length, for the lexer (validation on/off, none/zstd/lz4), the attachment callback, the scan iterator and WriteAttachment. Samples the space.",
+   note="Needs the hook go/mcap/verif_hooks.go (build tag verif, add-only). GC timing is not owned; thresholds leave an order of magnitude of slack."),
 }
 
 NOT_APPLICABLE = {
